@@ -141,10 +141,11 @@ func (c *compiler) getTypeSize(ty ddpIrType) uint64 {
 }
 
 func getHashableModuleName(mod *ast.Module) string {
+	// underscores of the path are doubled, otherwise a_b.ddp and a/b.ddp get the same name
 	return "ddp_" + strings.TrimSuffix(
 		strings.ReplaceAll(
 			strings.ReplaceAll(
-				filepath.ToSlash(mod.FileName),
+				strings.ReplaceAll(filepath.ToSlash(mod.FileName), "_", "__"),
 				"/",
 				"_",
 			),
